@@ -1,6 +1,7 @@
 import DW.Render
 import DW.Sexp
 import DW.Message
+import DW.Probe
 
 /-!
 # Driver: one request per line on stdin, one answer per line on stdout
@@ -19,7 +20,22 @@ def expandLine (c : Cfg) (raw : RawItem) : String :=
       acc ++ " @@ " ++ t.trait.asStr ++ " " ++ joinToks (ims.flatMap (Impl.toks inp))) "ok"
   | .error e => if e.isPanic then "panic " ++ e.message c else "err " ++ e.message c
 
+def handleSpec (line : String) : String :=
+  match line.splitOn " ## " with
+  | head :: queries =>
+    match head.splitOn " " with
+    | _ :: cfg :: rest =>
+      match dCfg cfg, Sexp.parse (" ".intercalate rest) with
+      | some c, some sx =>
+        match dItem sx with
+        | some raw => specLine c raw queries
+        | none => "bad-item"
+      | _, _ => "bad-request"
+    | _ => "bad-request"
+  | _ => "bad-request"
+
 def handle (line : String) : String :=
+  if line.startsWith "specq " then handleSpec line else
   match line.splitOn " " with
   | cmd :: cfg :: rest =>
     match dCfg cfg, Sexp.parse (" ".intercalate rest) with
